@@ -186,3 +186,30 @@ prop("C05", "exploration",
       "the output's link to a log entry (tx_log_entry) is not part of the compared state; status, value, heights and balances are",
       "a self-send is cancelled by log id (two entries share the slate id)"],
      required_hist=["exact-rollback:SentFinalized", "exact-rollback:Received", "exact-rollback:InvoicePayerLocked", "exact-rollback:LateLockedFinalized", "exact-rollback:SelfSend", "refused:confirmed", "refused:coinbase", "refused:already-cancelled"])
+
+prop("C02", "exploration",
+     "scenarios over send / late-locked send / self-send / invoice with random amount, 1-3 change outputs, ttl, amount-includes-fee, optional payment proof, on "
+     "wallets with mined history; for each honest reply ~60 alterations are finalized one after another (amount, fee, ttl, offset, id, all 7 states, "
+     "num_participants, version, kernel feature; each participant's partial signature flipped/dropped, nonce and excess swapped/replaced/duplicated/dropped; "
+     "outputs removed/duplicated/replaced/added, proof swapped; transaction removed; attacker-level replies re-signed with a harness keychain for another "
+     "amount, lower fee or an extra output; payment-proof fields). Oracle 'success => exact': a reply that finalizes must give a transaction that validates, "
+     "has the kernel fee agreed at initiation, spends exactly the inputs recorded in the context (recomputed from the seed by the harness), contains every "
+     "recorded change output and no output that is neither change nor the counterparty's honest output, equals get_stored_tx byte for byte, and is mined by "
+     "the real chain; a refused reply leaves state unchanged and the transaction cancellable to the pre-send balance. distinct = (flow, alteration, outcome); "
+     "non-trivial = all",
+     [{"name": "c02", "cmd": "c02", "shards": {"quick": 14, "thorough": 16}, "crash_is_violation": True, "timeout": {"quick": 900, "thorough": 3000}}],
+     {"quick": 800, "thorough": 5000},
+     ["kernel-feature arguments are excluded as the statement says", "honest replies that fail are inconclusive, never violations"],
+     required_hist=["success-exact:Send", "success-exact:Invoice", "success-exact:LateLock", "success-exact:SelfSend", "refused:altered", "cancel-after-refused-reply-restores-balance"])
+
+prop("C11", "exploration",
+     "proof-carrying sends (send, late-locked, self-send; random amounts and change shapes) whose replies are altered field-wise (proof stripped, signature "
+     "dropped / bit-flipped / made by another key with or without a matching address / taken from another transaction, recipient or sender address replaced "
+     "or swapped) before finalization; success => the finalized slate carries the requested recipient's signature that verifies independently (ed25519-dalek) "
+     "over amount || final kernel excess || sender address. After an accepted finalization the exported proof must fail verification before the kernel is "
+     "mined, verify after mining, and fail for 11 alterations (amount +-1, excess bit / another on-chain kernel, either address, swapped addresses or "
+     "signatures, bit-flipped signatures, sender signature by another key). distinct = (flow, alteration, outcome); non-trivial = all",
+     [{"name": "c11", "cmd": "c11", "shards": {"quick": 12, "thorough": 16}, "crash_is_violation": True, "timeout": {"quick": 900, "thorough": 3000}}],
+     {"quick": 500, "thorough": 4000},
+     ["'kernel not on chain' is tested before mining (a fork removing the kernel is exercised by C18's machinery, not here)"],
+     required_hist=["exported-proof-verifies", "unmined-proof-rejected", "altered-proof-rejected", "refused:altered", "success-exact:Send", "success-exact:LateLock"])
